@@ -80,6 +80,9 @@ pub mod vx_facts {
     /// a Vec's length fits in usize
     pub broadcast axiom fn ax_vec_len<T>(v: Vec<T>)
         ensures #[trigger] v@.len() <= usize::MAX;
+    /// a byte vector's length fits in isize (allocation limit)
+    pub broadcast axiom fn ax_vec_u8_len(v: Vec<u8>)
+        ensures #[trigger] v@.len() <= isize::MAX;
     /// a slice's length fits in usize
     pub broadcast axiom fn ax_slice_len<T>(s: &[T])
         ensures #[trigger] s@.len() <= usize::MAX;
@@ -91,6 +94,14 @@ pub mod vx_canon {
     use vstd::prelude::*;
     verus! {
     pub uninterp spec fn canon(s: Seq<char>) -> Seq<char>;
+    /// number of components of a path (component starts); canonicalize_path panics above 60 (its stack is fixed-size)
+    pub uninterp spec fn ncomp(s: Seq<char>) -> int;
+    /// a name as the graph's name -> id map expects it (C13: every path reaches the map through canonicalisation)
+    pub open spec fn is_canon(s: Seq<char>) -> bool { canon(s) == s }
+    /// ASSUMED here: canonicalisation is idempotent.  Unit canon proves the code equal to the byte-level spec function
+    /// cn::canon for all inputs and checks idempotence of that function exhaustively up to a length bound (by compute).
+    pub broadcast axiom fn ax_canon_idem(s: Seq<char>)
+        ensures #[trigger] canon(canon(s)) == canon(s);
     }
 }
 
